@@ -7,6 +7,7 @@ package pbuffer
 //@ property C19
 //@ func (*Pool).Get
 //@   params p c
+//@   locals v x
 //@   mode bv
 //@   requires p != nil && pool.inv(p.pool) && p.pool.stepSize <= 1<<47 && 0 <= c && c <= 1<<47
 //@   requires SIall: forallint(i, forallv(x, *bytes.Buffer, forallint(s, pool.SI(p.pool, i, x, s))))
